@@ -498,6 +498,15 @@ impl Monitor for C11 {
         c
     }
 
+    fn sidecar(&self, env: &Env) -> Vec<SidecarReport> {
+        // thorough: escape -> EscapedRule::make -> matches on 16 x 300 byte strings, interpreted by Miri
+        if env.tier == Tier::Thorough {
+            vec![crate::miri::run_miri("C11", "escape", 16, 300)]
+        } else {
+            vec![]
+        }
+    }
+
     fn shrink(&self, case: &C11Case) -> Vec<C11Case> {
         // the failing line that `check` reports, reduced to its minimal content (left behind by `check`)
         if let Some(m) = LAST_MIN.with(|l| l.borrow().as_ref().filter(|(c, _)| c == case).map(|(_, m)| m.clone())) {
